@@ -71,3 +71,11 @@ Example C18_premises_satisfiable :
               q_hdr := [(bs "Cache-Control", [bs "Only-If-Cached, max-stale=5"])] |} in
   is_request_method_understood q = true /\ req_only_if_cached (parse_cc (q_hdr q)) = true.
 Proof. vm_compute; split; reflexivity. Qed.
+
+(* ---------- tie to the source: the part of the model this property rests on is what /verif/translate derives from
+   /repo's Go source on this run (Generated/*.v are rewritten before every build; see DESIGN.md section 9) ---------- *)
+From HC.Generated Require Import SrcHit.
+From HC.Proofs Require Import TieHit.
+Theorem C18_source_decision : forall q e now, src_decide_hit q e now = decide_hit q e now.
+Proof. exact tie_decide_hit. Qed.
+Print Assumptions C18_source_decision.
